@@ -376,7 +376,7 @@ class ClosingQuote(FnCase):
                                InvLoop(self.inv, modifies=('locals',), lemmas=self.lemmas)}
 
     def roles(self, L):
-        # by role: the counter is incremented, the index is decremented in the loop
+        # by role: the index of the scan is decremented in the loop; a run counter, if the code keeps one, is incremented
         inc = dec = None
         for n in ast.walk(L.fr.node if hasattr(L.fr, 'node') else self.fn_node):
             if isinstance(n, ast.While):
@@ -384,14 +384,16 @@ class ClosingQuote(FnCase):
                     if isinstance(m, ast.AugAssign) and isinstance(m.target, ast.Name):
                         if isinstance(m.op, ast.Add): inc = m.target.id
                         if isinstance(m.op, ast.Sub): dec = m.target.id
-        if inc is None or dec is None:
-            raise Unsupported('_ends_with_closing_quote: cannot identify the run counter and the index of the scan')
+        if dec is None:
+            raise Unsupported('_ends_with_closing_quote: cannot identify the index of the scan')
         return inc, dec
 
     def vals(self, L, q):
         inc, dec = self.roles(L)
-        ci, cd = L.scope_lookup(inc), L.scope_lookup(dec)
-        return self.eng.to_int(q, q.cells[ci]), self.eng.to_int(q, q.cells[cd])
+        cd = L.scope_lookup(dec)
+        index = self.eng.to_int(q, q.cells[cd])
+        count = self.eng.to_int(q, q.cells[L.scope_lookup(inc)]) if inc is not None else None
+        return count, index
 
     def lemmas(self, L, q, j):
         count, index = self.vals(L, q)
@@ -400,8 +402,11 @@ class ClosingQuote(FnCase):
     def inv(self, L, q, j):
         count, index = self.vals(L, q)
         n = Length(self.TS)
-        return [('counter', And(count >= 0, index == n - 2 - count)),
-                ('run_so_far', esc_run(self.TS, self.ES, n - 2) == count + esc_run(self.TS, self.ES, index))]
+        scanned = n - 2 - index          # the positions n-2, n-3, ..., index+1 hold the escape character
+        out = [('index', And(scanned >= 0, index >= -1)), ('run_so_far', esc_run(self.TS, self.ES, n - 2) == scanned + esc_run(self.TS, self.ES, index))]
+        if count is not None:
+            out.append(('counter', count == scanned))
+        return out
 
     def setup(self, eng, p):
         self.eng = eng
